@@ -159,3 +159,21 @@ Theorem C09_probe_liveness : forall addrs rotate tries chance delay now evs ch o
   exists pl pa, In (OTx pl pa true) obs /\ pa <> sv_addr su.
 Proof. exact probe_liveness_reachable. Qed.
 Print Assumptions C09_probe_liveness.
+
+(* "each failure demotes it": a connection that fails or is closed by the server - orderly close
+   (recv() == 0) included - is a failure of that server.  For all histories the third monitor
+   accepts the stream: whenever the transport loses a connection with queries outstanding, the
+   very next observation is the failure callback of that server; the re-queued attempts that
+   follow are judged against the demoted table by C09_trace_accepted, C09_accounting gives the
+   +1. *)
+Theorem C09_conn_loss_demotes : forall evs ch ch' obs,
+  run ch evs = Ok (ch', obs) -> dmon_run None obs = Some None.
+Proof. exact demotion_accepts. Qed.
+Print Assumptions C09_conn_loss_demotes.
+
+Theorem C09_conn_loss_step : forall ch a cs ch' obs,
+  step ch (EvConnLost a cs) = Ok (ch', obs) ->
+  exists out rest, obs = OConnLost a out :: OFail a :: rest /\ quiet rest /\
+    out = negb (is_nil (filter (fun x => at_server x =? a) (ch_inflight ch))).
+Proof. exact connlost_shape. Qed.
+Print Assumptions C09_conn_loss_step.
